@@ -340,6 +340,13 @@ func (o *ops) ReadConfig(file string) ([]byte, error) {
 		w.fireBenignErr(c, f, file)
 		return nil, errSim
 	}
+	if file == "key" && c.HasFirstConfig {
+		// The client reads its key again: it is initialising itself again (legal after a failed attempt).
+		// What it found in the configuration in the attempt it gave up does not commit it to anything;
+		// the head it reads next is the one it starts from.
+		c.HasFirstConfig, c.FirstConfig = false, nil
+		w.Res.Probes["client-initialised-again"]++
+	}
 	data, ok := c.Machine.Config[file]
 	if !ok {
 		w.Res.Logf("c%d ReadConfig %s -> not found", c.ID, file)
